@@ -134,7 +134,8 @@ def main():
     # ---- TLC: exhaustive configuration spaces
     runs = [("MCImports2.cfg", {}, None), ("MCImports3.cfg", {}, None if c.tier == "thorough" else 3000), ("MCImportsChain.cfg", {}, None)]
     if c.tier == "thorough":
-        runs.append(("MCImports4.cfg", {}, None))
+        # TLC exhaustive over all 4-directory configurations; replaying all of them took more than an hour, so a large seeded sample
+        runs.append(("MCImports4.cfg", {}, 20000))
     else:
         runs.append(("MCImports4q.cfg", {}, 1500))    # TLC exhaustive (distinct namespaces); replay a seeded sample
     cases = []
